@@ -1846,10 +1846,17 @@ func CantAdd(mach am.Api, states am.S, args am.A) bool {
 	args2 := &am.ACheck{
 		CheckDone: make(chan struct{}),
 	}
-	mach.CanAdd(states, am.PassMerge(args, am.Pass(args2)))
+	switch mach.CanAdd(states, am.PassMerge(args, am.Pass(args2))) {
+	case am.Executed:
+		return false
+	case am.Canceled:
+		// rejected, or the check could not even run (disposed, backoff)
+		return true
+	}
+	// queued
 	<-args2.CheckDone
 
-	return !args2.Canceled
+	return args2.Canceled
 }
 
 // CantAdd1 is a single-state version of [CantAdd].
@@ -1862,7 +1869,14 @@ func CantRemove(mach am.Api, states am.S, args am.A) bool {
 	args2 := &am.ACheck{
 		CheckDone: make(chan struct{}),
 	}
-	mach.CanRemove(states, am.PassMerge(args, am.Pass(args2)))
+	switch mach.CanRemove(states, am.PassMerge(args, am.Pass(args2))) {
+	case am.Executed:
+		return false
+	case am.Canceled:
+		// rejected, or the check could not even run (disposed, backoff)
+		return true
+	}
+	// queued
 	<-args2.CheckDone
 
 	return args2.Canceled
